@@ -98,7 +98,7 @@ int main(int argc, char** argv) {
   std::vector<std::string> reads, outs, says, says_err, dd_for;
   std::string say_big;
   std::string key, depfile, rsp, wait_for, announce, fail_if_exists, pidfile;
-  bool follow = false, msvc = false, restat = false, early = false, atomic = false, nocmd = false, dd = false;
+  bool follow = false, msvc = false, restat = false, early = false, atomic = false, nocmd = false, dd = false, keep_times = false;
   int exit_code = 0, sleep_before = 0, sleep_after = 0, chunk_delay = 0, kill_self = 0;
   std::vector<std::string>* cur = nullptr;
   for (int i = 1; i < argc; ++i) {
@@ -118,6 +118,7 @@ int main(int argc, char** argv) {
     else if (a == "--restat") { restat = true; cur = nullptr; }
     else if (a == "--early") { early = true; cur = nullptr; }
     else if (a == "--atomic") { atomic = true; cur = nullptr; }
+    else if (a == "--keep-times") { keep_times = true; cur = nullptr; }   // like cp -p / install -p / touch -r: outputs carry the time of the newest file read
     else if (a == "--exit") { exit_code = atoi(next().c_str()); cur = nullptr; }
     else if (a == "--sleep-before") { sleep_before = atoi(next().c_str()); cur = nullptr; }
     else if (a == "--sleep-after") { sleep_after = atoi(next().c_str()); cur = nullptr; }
@@ -166,9 +167,16 @@ int main(int argc, char** argv) {
   std::string readlist;
   for (auto& pc : rd) readlist += pc.first + "=" + HashHex(pc.second) + ",";
   Log("R", readlist + (rsp.empty() ? "" : " rsp=" + HashHex(rsp_content)) + (missing.empty() ? "" : " missing=" + missing));
+  struct timespec newest = {0, 0};
+  for (auto& pc : rd) { struct stat sb; if (stat(pc.first.c_str(), &sb) == 0 && (sb.st_mtim.tv_sec > newest.tv_sec || (sb.st_mtim.tv_sec == newest.tv_sec && sb.st_mtim.tv_nsec > newest.tv_nsec))) newest = sb.st_mtim; }
+  auto stamp = [&](const std::string& o) {
+    if (!keep_times || newest.tv_sec == 0) return;
+    struct timespec ts[2] = {newest, newest};
+    utimensat(AT_FDCWD, o.c_str(), ts, 0);
+  };
   if (!announce.empty()) WriteFileMode(announce, "running\n", false);
   if (early && missing.empty()) {
-    for (auto& o : outs) WriteFileMode(o, "partial:" + (outs.empty() ? "" : outs[0]), false);
+    for (auto& o : outs) { WriteFileMode(o, "partial:" + (outs.empty() ? "" : outs[0]), false); stamp(o); }
     if (!depfile.empty() && !msvc) WriteFileMode(depfile, (outs.empty() ? std::string("x") : outs[0]) + ": \\\n", false);
     Log("P");
   }
@@ -228,6 +236,7 @@ int main(int argc, char** argv) {
       std::string c = "G" + HashHex(k);
       if (restat) { std::string old; if (ReadFile(o, &old) && old == c) continue; }
       if (!WriteFileMode(o, c, atomic)) { fprintf(stderr, "vtool: cannot write %s: %s\n", o.c_str(), strerror(errno)); Log("E", "1 write"); return 1; }
+      stamp(o);
     }
   }
   if (!depfile.empty() && !msvc) {
